@@ -274,6 +274,7 @@ func cmdProp(args []string) {
 	var failed []*Obligation
 	var samples []interface{}
 	var slow []oblRecord
+	var undecided []*FuncResult
 	cached := 0
 	for _, r := range results {
 		summarize(r)
@@ -285,7 +286,10 @@ func cmdProp(args []string) {
 		}
 		switch r.Status {
 		case "missing", "outside-subset":
+			// a function under contract that can no longer be analysed (it left the verifier's subset, or is gone)
+			// is undecided: the property is not shown for it on this tree. It is reported, never skipped.
 			notCovered = append(notCovered, label+": "+r.Reason)
+			undecided = append(undecided, r)
 			continue
 		case "assumed":
 			assumedFns = append(assumedFns, label+": "+r.Reason)
@@ -354,6 +358,23 @@ func cmdProp(args []string) {
 			tg = o.Ctx.Tags
 		}
 		fmt.Printf("VIOLATION property=%s replay=%s obligation=%s tags=%s status=%s%s\n", id, rp.Path, o.Name, tg, o.Result.Status, suffix)
+	}
+	for _, r := range undecided {
+		violations++
+		name := r.Func + "#analysable"
+		tg := r.Tags
+		if tg == "" {
+			tg = "default"
+		}
+		rec := map[string]interface{}{"property": id, "obligation": name, "kind": "undecided", "spec": "every function under contract is within the verifier's subset and all its obligations are generated",
+			"status": "undecided", "solver": "none", "tags": tg, "verifier_output": r.Reason,
+			"note": "no obligation could be generated for this function on the current tree (" + r.Status + "): the property is not shown for it; no failing input is known"}
+		h := sha256.Sum256([]byte(name + tg))
+		path := filepath.Join(replayDir, fmt.Sprintf("%s-%s-%x.json", id, sanitize(name), h[:3]))
+		if b, err := json.MarshalIndent(rec, "", " "); err == nil {
+			os.WriteFile(path, b, 0o644)
+		}
+		fmt.Printf("VIOLATION property=%s replay=%s obligation=%s tags=%s status=undecided reason=%q no-failing-input-found\n", id, path, name, tg, r.Reason)
 	}
 	var bounded []BoundedResult
 	if plan.Bounded != nil {
